@@ -305,6 +305,12 @@ fn process_dir(
             }
 
             matcher.matches(&entry, &mut matcher_io);
+            if let Some(err) = entry.metadata_error() {
+                // A test needed the status of the entry and it could not be read:
+                // whatever the test answered, the entry was not examined.
+                ret = 1;
+                let _ = writeln!(&mut stderr(), "Error: {err}");
+            }
             if current_dir.as_deref() == Some(entry.path()) {
                 // "/" is run from itself, but it is not one of its own entries:
                 // they are not put into the same invocation.
